@@ -46,7 +46,7 @@ from ..workloads import c09_domain as dom
 ID = "C09"
 TIERS = {
     "quick": {"shards": 8, "budget_s": 20},
-    "thorough": {"shards": 16, "budget_s": 360},
+    "thorough": {"shards": 16, "budget_s": 200},
 }
 MIN_EVENTS = {"quick": 300000, "thorough": 5000000}
 EXHAUSTIVE = {"quick": True, "thorough": True}
@@ -314,8 +314,9 @@ def _make_hash(orig):
                 first = table.get(a)
                 c.event("period.hash", a[0], key=f"{a[0]}|hash|{cal.position_class(*a)}", nontrivial=first is not None)
                 if first is None:
-                    if len(table) < 2000000:
-                        table[a] = result
+                    if len(table) >= 200000:
+                        table.clear()
+                    table[a] = result
                 elif first != result:
                     c.violation(f"hash:not-a-function-of-the-period:{a[0]}", f"hash of {a} was {first}, now {result}")
         except Exception as exc:
@@ -1465,5 +1466,5 @@ def shard(c):
             c.sample(case)
 
     # ---- 5. more span histories while the budget lasts
-    n_hist += histories(c.scale(1200, 30000), True)
+    n_hist += histories(c.scale(1200, 12000), True)
     c.extra["span_histories"] = n_hist
